@@ -699,10 +699,15 @@ def rule_mode(rep: Report, cu: CUnit, repo: Repo) -> None:
     # ring allocated iff last_ops_length > 0
     ring_ok = False
     for node in g.nodes:
-        if isinstance(node.ast, dict) and node.kind == 'stmt' and 'last_ops_ring = ' in cu.src_of(node.ast) \
-                and 'calloc' in cu.src_of(node.ast):
-            conds = {cu.src_of(g.nodes[nid].ast) + ':' + pol for nid, pol in (IN.get(node.id) or frozenset())}
-            ring_ok = 'last_ops_length > 0:T' in conds
+        # the allocation of the ring, as a statement or embedded in its own NULL test (`if ((ring = calloc(..)) == NULL)`)
+        if isinstance(node.ast, dict) and node.kind in ('stmt', 'cond') and any(
+                is_assign(x) and cu.src_of(x['inner'][0]) == 'last_ops_ring' and any(
+                    c.get('kind') == 'CallExpr' and callee(c) in ('calloc', 'malloc') for c in walk(x['inner'][1]))
+                for x in walk(node.ast)):
+            facts_ = [lx.bool_form(c_ir(g.nodes[nid].ast, cu.src_of)) if pol == 'T' else ('not', lx.bool_form(c_ir(g.nodes[nid].ast, cu.src_of)))
+                      for nid, pol in (IN.get(node.id) or frozenset())]
+            ring_ok = any(lx.bf_equiv(f_, ('atom', 'last_ops_length > 0')) or lx.bf_equiv(f_, lx.bool_form(('cmp', ['>'], [('sym', 'last_ops_length'), ('num', 0)])))
+                          for f_ in facts_)
     rep.check(ring_ok, 'C07.MODE', 'Memory_run:ring-allocation', 'ring allocated exactly when last_ops_length > 0',
               cu.site(cu.func(fname)))
     # storage_mode: the string reported for each (flat allocated?, covers all?) - a nested ternary or an if chain of returns, read
@@ -734,8 +739,22 @@ def rule_mode(rep: Report, cu: CUnit, repo: Repo) -> None:
     rep.check(table == want_t, 'C07.MODE', 'storage_mode', str(table) if val is not None else 'the getter is not a pure expression after its guard',
               cu.site(cu.func('Memory_get_storage_mode')), expected='no flat array -> paged; flat covering every segment -> flat; else hybrid')
     fn = repo.func(RUN_REL, '_run_native')
-    kw = [norm(k.value) for c in ast.walk(fn) if isinstance(c, ast.Call) and dotted(c.func) == 'core.run'
-          for k in c.keywords if k.arg == 'last_ops_length']
+    # the value handed over, read through a local that is assigned it (possibly by `x = 0` + `if C: x = maxlen`)
+    from ..pyfacts import conditional_value, cc as _cc, cn as _cn
+    kw = []
+    for c in ast.walk(fn):
+        if isinstance(c, ast.Call) and dotted(c.func) == 'core.run':
+            for k in c.keywords:
+                if k.arg == 'last_ops_length':
+                    v = k.value
+                    if isinstance(v, ast.Name):
+                        v = conditional_value(fn, v.id) or v
+                    if isinstance(v, ast.IfExp) and _cn(v.test) == _cc('not (last_ops is not None and last_ops.maxlen)'):
+                        v = ast.IfExp(test=ast.parse('last_ops is not None and last_ops.maxlen', mode='eval').body, body=v.orelse, orelse=v.body)
+                    if isinstance(v, ast.IfExp) and _cn(v.test) == _cc('last_ops is not None and last_ops.maxlen'):
+                        kw.append(f'{norm(v.body)} if last_ops is not None and last_ops.maxlen else {norm(v.orelse)}')
+                    else:
+                        kw.append(norm(v))
     rep.check(kw == ['last_ops.maxlen if last_ops is not None and last_ops.maxlen else 0'], 'C07.MODE',
               '_run_native:last_ops_length', f'{kw}', f'{RUN_REL}:{fn.lineno} _run_native',
               expected='the deque maxlen, or 0 when no last-ops list is requested')
